@@ -1,0 +1,57 @@
+//go:build verif
+
+// Contracts for package type_msm7/signal, checked by /verif/govc (see /verif/DESIGN.md).
+// This file contains only comments; it is compiled only with -tags verif and
+// has no effect on the package.
+
+package signal
+
+//@ func GetSignalCells
+//@ requires[C07] header != nil
+//@ requires HeaderWF(header) && len(satCells) == len(header.Satellites) && startOfSignalCells <= 1<<40 && startOfSignalCells <= 8*len(bitStream)
+//@ let S = startOfSignalCells
+//@ ensures r1 == nil ==> len(r0) == len(header.Satellites) && fresh(r0)
+//@ ensures r1 == nil ==> forall(k, 0, len(r0), forall(l, 0, len(r0[k]), r0[k][l].Satellite != nil))
+//@ loop 1
+//@ invariant 0 <= i && i <= numSignalCells && len(rangeDelta) == i && fresh(rangeDelta) && pos == S + 20*i
+//@ invariant 0 <= numSignalCells && S + 80*numSignalCells <= 8*len(bitStream)
+//@ decreases numSignalCells - i
+//@ loop 2
+//@ invariant 0 <= i && i <= numSignalCells && len(phaseRangeDelta) == i && fresh(phaseRangeDelta) && pos == S + 20*numSignalCells + 24*i
+//@ invariant 0 <= numSignalCells && S + 80*numSignalCells <= 8*len(bitStream) && len(rangeDelta) == numSignalCells
+//@ decreases numSignalCells - i
+//@ loop 3
+//@ invariant 0 <= i && i <= numSignalCells && len(lockTimeIndicator) == i && fresh(lockTimeIndicator) && pos == S + 44*numSignalCells + 10*i
+//@ invariant 0 <= numSignalCells && S + 80*numSignalCells <= 8*len(bitStream) && len(rangeDelta) == numSignalCells && len(phaseRangeDelta) == numSignalCells
+//@ decreases numSignalCells - i
+//@ loop 4
+//@ invariant 0 <= i && i <= numSignalCells && len(halfCycleAmbiguity) == i && fresh(halfCycleAmbiguity) && pos == S + 54*numSignalCells + i
+//@ invariant 0 <= numSignalCells && S + 80*numSignalCells <= 8*len(bitStream) && len(rangeDelta) == numSignalCells && len(phaseRangeDelta) == numSignalCells && len(lockTimeIndicator) == numSignalCells
+//@ decreases numSignalCells - i
+//@ loop 5
+//@ invariant 0 <= i && i <= numSignalCells && len(cnr) == i && fresh(cnr) && pos == S + 55*numSignalCells + 10*i
+//@ invariant 0 <= numSignalCells && S + 80*numSignalCells <= 8*len(bitStream) && len(rangeDelta) == numSignalCells && len(phaseRangeDelta) == numSignalCells && len(lockTimeIndicator) == numSignalCells && len(halfCycleAmbiguity) == numSignalCells
+//@ decreases numSignalCells - i
+//@ loop 6
+//@ invariant 0 <= i && i <= numSignalCells && len(phaseRangeRateDelta) == i && fresh(phaseRangeRateDelta) && pos == S + 65*numSignalCells + 15*i
+//@ invariant 0 <= numSignalCells && S + 80*numSignalCells <= 8*len(bitStream) && len(rangeDelta) == numSignalCells && len(phaseRangeDelta) == numSignalCells && len(lockTimeIndicator) == numSignalCells && len(halfCycleAmbiguity) == numSignalCells && len(cnr) == numSignalCells
+//@ decreases numSignalCells - i
+//@ loop 7
+//@ invariant 0 - 1 <= rangeindex && rangeindex <= len(header.Cells) - 1 && (len(header.Cells) == 0 || rangeindex < len(header.Cells))
+//@ invariant len(signalCells) == len(header.Satellites) && fresh(signalCells) && 0 <= c && forall(k, 0, rangeindex + 1, fresh(signalCells[k]) && allocated(signalCells[k]))
+//@ invariant forall(k, rangeindex + 1, len(signalCells), len(signalCells[k]) == 0)
+//@ invariant forall(k, 0, rangeindex + 1, forall(l, 0, len(signalCells[k]), signalCells[k][l].Satellite != nil))
+//@ invariant len(rangeDelta) == numSignalCells && len(phaseRangeDelta) == numSignalCells && len(lockTimeIndicator) == numSignalCells && len(halfCycleAmbiguity) == numSignalCells && len(cnr) == numSignalCells && len(phaseRangeRateDelta) == numSignalCells
+//@ decreases len(header.Cells) - rangeindex
+//@ loop 8
+//@ invariant 0 - 1 <= rangeindex && rangeindex <= len(header.Signals) - 1 && 0 <= i && i < len(header.Cells)
+//@ invariant len(signalCells) == len(header.Satellites) && fresh(signalCells) && 0 <= c && forall(k, 0, i + 1, fresh(signalCells[k]) && allocated(signalCells[k]))
+//@ invariant forall(k, 0, i, arrof(signalCells[k]) < arrof(signalCells[i]))
+//@ invariant forall(k, i + 1, len(signalCells), len(signalCells[k]) == 0)
+//@ invariant forall(k, 0, i + 1, forall(l, 0, len(signalCells[k]), signalCells[k][l].Satellite != nil))
+//@ invariant len(rangeDelta) == numSignalCells && len(phaseRangeDelta) == numSignalCells && len(lockTimeIndicator) == numSignalCells && len(halfCycleAmbiguity) == numSignalCells && len(cnr) == numSignalCells && len(phaseRangeRateDelta) == numSignalCells
+//@ decreases len(header.Signals) - rangeindex
+
+//@ func (*Cell).String
+//@ requires[C07] cell != nil && cell.Satellite != nil
+//@ arith wrap
